@@ -4,6 +4,16 @@ import numpy as np
 from harness import common, gen, api
 
 LEVEL = "proof"
+IMPORTS = ["From MuxV Require Import Base.Num Base.Vec3 Base.FInst Model.Helpers Model.AeroState Model.Restore Model.RestoreF."]
+RESTORE_CASES, RESTORE_DESCR = [], []
+
+
+def cfs(st):
+    """Coq literal of the complete state an aircraft object holds"""
+    from harness.common import fhex
+    fr = {"body": "FBody", "stab": "FStab", "wind": "FWind"}[st["rate_frame"]]
+    v3 = lambda v: "(V3 %s %s %s)" % tuple(fhex(x) for x in v)
+    return "(mk_fs %s (Q4 %s %s %s %s) %s %s %s)" % (v3(st["p"]), fhex(st["q"][0]), fhex(st["q"][1]), fhex(st["q"][2]), fhex(st["q"][3]), v3(st["v"]), v3(st["w"]), fr)
 
 
 def snapshot(sc):
@@ -54,6 +64,12 @@ def side_effect_sweep(chk, MX, n):
         chk.case(dict(analysis=an, multi=multi, wind=wind, digest=common.hashlib.sha1(json.dumps([sd, acs], sort_keys=True, default=str).encode()).hexdigest()[:8]),
                  nontrivial=True)
         chk.count("analysis=%s/%s" % (an, "wind" if wind else "still"))
+        if an in ("state_derivatives", "state_derivatives_all", "pitch_trim_orient_noset"):
+            # the two analyses that go through set_state with a keyword dictionary: the object's complete state against Model/Restore.v
+            for nm in before:
+                RESTORE_CASES.append("chk_restore %s %s" % (cfs(before[nm]), cfs(after[nm])))
+                RESTORE_DESCR.append(dict(analysis=an, aircraft=nm, rate_frame=before[nm]["rate_frame"]))
+                chk.count("restore-frame=" + before[nm]["rate_frame"])
         bad = api.compare(before, after, rtol=1e-9, atol=1e-9)
         if bad:
             what = bad[0][0].split("/")[1].split("[")[0]
@@ -161,6 +177,13 @@ def run(chk):
                               "oracles: solve_forces treated as a function of the scene state"])
     side_effect_sweep(chk, MX, chk.q(80, 400))
     set_state_sweep(chk, MX, chk.q(9, 90))
+    failing, nfiles, errors = common.run_cases("C08", IMPORTS, [], RESTORE_CASES)
+    chk.cov["correspondence_cases"] = len(RESTORE_CASES)
+    chk.cov["traces_validated_against_impl"] = len(RESTORE_CASES)
+    if errors:
+        chk.fail_obligation("correspondence:C08(case files do not compile)", "\n".join(errors)[-3000:])
+    elif failing and not chk.violations:
+        chk.fail_obligation("correspondence:Model/Restore.v", json.dumps(dict(first=RESTORE_DESCR[failing[0]], n=len(failing)), default=str)[:3000])
     return chk.finish(rule="each query-type analysis on generated scenes (1-2 aircraft, wind in 60 %, random attitude, non-zero controls): state of every "
                            "aircraft and solve_forces before vs after; each trim with set state: state after = returned values, other controls, airspeed, "
                            "sideslip, pose preserved")
